@@ -110,7 +110,7 @@ def pidList? (s : String) : Option (List Nat) := natList? s
 def parsePeers (s : String) : List (String × String) :=
   if s == "-" || s == "" then [] else
   (splitOnChar s ';').filterMap (fun e => match splitOnChar e '^' with
-    | [n, c] => some (unword n, unword c)
+    | [n, c] => some (unword n, (unword c).replace "~" ":")   -- `~` stands for `:` inside a descriptor
     | _ => none)
 
 def showPeers (l : List (String × String)) : String :=
@@ -199,7 +199,8 @@ structure Ses where
   authed : Bool := false            -- model: `authenticated` was emitted
   -- oracle state, fed only by what the harness sent and what the implementation showed
   oIssued : Option Nat := none      -- challenge the node issued on this session (seen in its frames)
-  oGood : Bool := false             -- the harness presented the right digest for it
+  oGood : Bool := false             -- the harness presented the right digest for it (not one the node itself had sent)
+  oRelayed : Bool := false          -- the right digest the harness presented was one the NODE had sent before (reflection)
   oClosed : Bool := false           -- the session was seen dead
   oAdvertised : List Nat := []      -- pids the node announced in `spawn` frames and not yet `term`ed
 
@@ -210,10 +211,26 @@ structure St where
   /-- transitive `connect` effects of the current node (all sessions) -/
   connects : Nat := 0
   anyGood : Bool := false
+  anyRelayed : Bool := false
+  /-- oracle: how many dials of the advertised listener the `NodeSessions` frames sent so far may
+  cause at most: entries naming a peer that is not this node and not a peer the harness is
+  authenticated as (by name or connection string), sent on an authenticated session in transitive mode -/
+  oAllowedDials : Nat := 0
+  /-- oracle: every digest the node itself has sent so far (in its `ChallengeReply` / `ChallengeAck`
+  frames, any session): presenting one of these proves nothing about knowing the cookie -/
+  emitted : List String := []
 
 def St.get? (s : St) (k : Nat) : Option Ses := (s.sessions.find? (·.1 == k)).map (·.2)
 def St.set (s : St) (k : Nat) (v : Ses) : St :=
-  { s with sessions := (s.sessions.filter (·.1 != k)) ++ [(k, v)], anyGood := s.anyGood || v.oGood }
+  { s with sessions := (s.sessions.filter (·.1 != k)) ++ [(k, v)], anyGood := s.anyGood || v.oGood,
+           anyRelayed := s.anyRelayed || v.oRelayed }
+
+/-- digests in the frames the node sent -/
+def digestsIn (sent : List String) : List String :=
+  sent.filterMap (fun f => match colon f with
+    | ["cchal", _, h] => some h
+    | ["sack", h] => some h
+    | _ => none)
 
 def sortNats (l : List Nat) : List Nat := (l.toArray.qsort (· < ·)).toList
 
@@ -324,14 +341,22 @@ def hasEffect (o : Obs) : Bool :=
 
 /-- Update the oracle state with what the harness sent, then judge the observation. -/
 def judge (ses : Ses) (sentByHarness : Option (Frame D)) (tbl : List (Nat × String)) (remNow : List Nat)
-    (o : Obs) : Ses × List String :=
+    (o : Obs) (emitted : List String := []) : Ses × List String :=
   -- did the harness just present the right digest for the challenge this node issued?
   let good := match sentByHarness, ses.oIssued with
     | some (.auth (.clientChallenge _ dg)), some c => ses.cfg.isServer && dg == Hof tbl () c && dg != "?"
     | some (.auth (.serverAck dg)), some c => !ses.cfg.isServer && dg == Hof tbl () c && dg != "?"
     | _, _ => false
-  let oGood := ses.oGood || good
-  let fails1 := if !oGood && hasEffect o then ["effect-before-authentication"] else []
+  -- … but a digest the node itself had sent before (on any session) proves nothing: the peer may
+  -- have copied it (reflection). Such a session counts as NOT having proved knowledge of the cookie.
+  let relayed := match sentByHarness with
+    | some (.auth (.clientChallenge _ dg)) => emitted.contains dg
+    | some (.auth (.serverAck dg)) => emitted.contains dg
+    | _ => false
+  let oGood := ses.oGood || (good && !relayed)
+  let oRelayed := ses.oRelayed || (good && relayed)
+  let fails1 := if !oGood && hasEffect o then
+      [if oRelayed then "authenticated-by-reflected-digest" else "effect-before-authentication"] else []
   let fails2 := if ses.oClosed && (hasEffect o || o.alive || !o.sent.isEmpty) then ["effect-after-close"] else []
   -- allow-list: deliveries only to pids this node announced on this session, live and remotable
   let adv := o.sent.foldl (fun acc f =>
@@ -350,13 +375,13 @@ def judge (ses : Ses) (sentByHarness : Option (Frame D)) (tbl : List (Nat × Str
     | ["schal", _, c] => if ses.cfg.isServer then c.toNat? else acc
     | ["cchal", c, _] => if !ses.cfg.isServer then c.toNat? else acc
     | _ => acc) ses.oIssued
-  ({ ses with oGood := oGood, oClosed := ses.oClosed || !o.alive, oAdvertised := adv, oIssued := issued },
+  ({ ses with oGood := oGood, oRelayed := oRelayed, oClosed := ses.oClosed || !o.alive, oAdvertised := adv, oIssued := issued },
    fails1 ++ fails2 ++ fails3)
 
 def oracleOn (ses : Ses) (sentByHarness : Option (Frame D)) (tbl : List (Nat × String)) (remNow : List Nat)
-    (impl : String) : Ses × List String :=
+    (impl : String) (emitted : List String := []) : Ses × List String :=
   match parseObs? impl with
-  | some o => judge ses sentByHarness tbl remNow o
+  | some o => judge ses sentByHarness tbl remNow o emitted
   | none => (ses, ["unparsable-observation"])
 
 /-! ### step -/
@@ -434,17 +459,39 @@ def enumOracle (st : List (Nat × Ses)) (impl : String) : List String :=
     let named := o.sent.flatMap (fun f => match colon f with
       | ["nodesessions", l] => (parsePeers l).map (·.1)
       | _ => [])
-    if named.all (fun n => st.any (fun (_, s) => s.oGood && (s.st.name.map (·.1)) == some n)) then []
+    let bad := named.filter (fun n => !st.any (fun (_, s) => s.oGood && (s.st.name.map (·.1)) == some n))
+    if bad.isEmpty then []
+    else if bad.all (fun n => st.any (fun (_, s) => s.oRelayed && (s.st.name.map (·.1)) == some n)) then
+      ["authenticated-by-reflected-digest"]
     else ["unauthenticated-peer-listed-to-others"]
+  | none => []
+
+/-- the node's digests in an observation -/
+def implDigests (impl : String) : List String :=
+  match parseObs? impl with
+  | some o => digestsIn o.sent
   | none => []
 
 def closeTransport (ses : Ses) : Ses :=
   { ses with st := { ses.st with stopped := true } }
 
-def step (st : St) (op impl : String) : St × StepOut :=
+/-- `relay <k> <from> <kind> frame=<f> env…` is the frame `<f>` on session `<k>` (the harness built
+it from the node's own frames on session `<from>`; the oracle does not rely on that label: it
+recognises a reflected digest by itself). -/
+def unrelay (op : String) : String :=
+  match words op with
+  | "relay" :: k :: _ :: _ :: rest =>
+    match getField rest "frame" with
+    | some f => if f == "-" then op else " ".intercalate ("send" :: k :: f :: rest.filter (fun w => !w.startsWith "frame="))
+    | none => op
+  | _ => op
+
+def step (st : St) (op0 impl : String) : St × StepOut :=
+  let op := unrelay op0
   let ws := words op
   let tbl := parseH ((getField ws "h").getD "-")
   match ws with
+  | "relay" :: _ => (st, { model := "nothing-to-relay" })
   | "srv" :: s :: m :: _ =>
     match parseServer? s, parseMsg? m with
     | some s, some m =>
@@ -492,7 +539,9 @@ def step (st : St) (op impl : String) : St × StepOut :=
   | ["connects"] =>
     -- oracle: the node dials a peer-supplied address only if some session presented the right digest
     let orc := match impl.toNat? with
-      | some n => if n > 0 && !st.anyGood then ["effect-before-authentication"] else []
+      | some n => if n > 0 && !st.anyGood then
+          [if st.anyRelayed then "authenticated-by-reflected-digest" else "effect-before-authentication"]
+        else if n > st.oAllowedDials then ["transitive-dial-of-known-peer-or-self"] else []
       | none => []
     (st, { model := toString st.connects, oracle := orc, nontrivial := st.connects > 0 })
   | "open" :: k :: side :: _ =>
@@ -538,11 +587,44 @@ def step (st : St) (op impl : String) : St × StepOut :=
       let ses' : Ses := { ses with st := s', pg := applyPg ses.pg eff,
                                      authed := ses.authed || eff.contains Effect.authenticated }
       let rem := ((getField ws "rem").bind natList?).getD []
-      let (sesO, orc1) := oracleOn ses' (some fr) tbl rem impl
-      let orc := orc1 ++ violationOracle ses fr impl ++ enumOracle ((st.set (k.toNat?.getD 0) sesO).sessions) impl
+      let (sesO, orc1) := oracleOn ses' (some fr) tbl rem impl st.emitted
+      -- C18, end to end: a session that has just proved the cookie is turned away (stops instead of
+      -- becoming ready) only in favour of another session of the same peer name that proved it too
+      let kn := k.toNat?.getD 0
+      let provedNow := (sesO.oGood && !ses.oGood) || (sesO.oRelayed && !ses.oRelayed)
+      let rival := st.sessions.any (fun (k', s) => k' != kn && (s.oGood || s.oRelayed) && !s.oClosed &&
+        (s.st.name.map (·.1)) == (s'.name.map (·.1)) && s.st.name.isSome)
+      let orcV := match parseObs? impl with
+        | some o => if provedNow && !ses.st.stopped && !selfConnection ses.cfg ses.st && !o.alive && !rival
+                    then ["authenticated-session-turned-away-without-authenticated-rival"] else []
+        | none => []
+      -- … and a connection that merely ANNOUNCES its name (first `Name` on a fresh server-side session)
+      -- is refused at once only in favour of a session of that name that proved the cookie: an
+      -- unauthenticated squatter cannot veto it
+      let orcN := match fr, ses.st.auth, parseObs? impl with
+        | .auth (.name n), .server .waitingName, some o =>
+          let rivalN := st.sessions.any (fun (k', s) => k' != kn && (s.oGood || s.oRelayed) && !s.oClosed &&
+            (s.st.name.map (·.1)) == some n.name)
+          if !ses.st.stopped && !o.alive && !rivalN then ["connection-refused-without-authenticated-rival"] else []
+        | _, _, _ => []
+      let orc := orc1 ++ orcV ++ orcN ++ violationOracle ses fr impl ++ enumOracle ((st.set (k.toNat?.getD 0) sesO).sessions) impl
       let nt := eff.any (·.gated) || s'.stopped
-      let nc := (eff.filter (fun e => match e with | .connect _ => true | _ => false)).length
-      ({ st.set (k.toNat?.getD 0) sesO with connects := st.connects + nc },
+      -- dials of the advertised loopback listener (other addresses are not dialable and not observed)
+      let nc := (eff.filter (fun e => match e with | .connect a => a.startsWith "127.0.0.1:" | _ => false)).length
+      -- oracle bookkeeping for the transitive dial (from the harness' frames and the oracle's own
+      -- notion of which sessions proved the cookie and are still up)
+      let stO := st.set (k.toNat?.getD 0) sesO
+      let allowed := match fr with
+        | .control (.nodeSessions peers) =>
+          if ses.cfg.transitive && (sesO.oGood || sesO.oRelayed) && !sesO.oClosed then
+            let known := stO.sessions.filterMap (fun (_, s) => if (s.oGood || s.oRelayed) && !s.oClosed then s.st.name else none)
+            let ks := known.flatMap (fun n => [n.1, n.2])
+            (peers.filter (fun p => p.2.startsWith "127.0.0.1:" &&
+              !(ks.contains p.1 || ks.contains p.2 || p.1 == ses.cfg.thisName || p.2 == ses.cfg.thisConn))).length
+          else 0
+        | _ => 0
+      ({ stO with connects := st.connects + nc, emitted := st.emitted ++ implDigests impl,
+                  oAllowedDials := st.oAllowedDials + allowed },
        { model := showObs ses' eff impl, oracle := orc, nontrivial := nt })
     | _, _ => (st, { model := "bad-op" })
   | "batch" :: k :: fs :: _ =>
@@ -561,9 +643,10 @@ def step (st : St) (op impl : String) : St × StepOut :=
         | .auth (.clientChallenge _ _) => true
         | .auth (.serverAck _) => true
         | _ => false)
-      let (sesO, orc) := oracleOn ses' presented tbl rem impl
+      let (sesO, orc) := oracleOn ses' presented tbl rem impl st.emitted
       let nt := eff.any (·.gated) || s'.stopped
-      (st.set (k.toNat?.getD 0) sesO, { model := showObs ses' eff impl, oracle := orc, nontrivial := nt })
+      ({ st.set (k.toNat?.getD 0) sesO with emitted := st.emitted ++ implDigests impl },
+       { model := showObs ses' eff impl, oracle := orc, nontrivial := nt })
     | _, _ => (st, { model := "bad-op" })
   | "local" :: k :: what :: pid :: rem :: _ =>
     match k.toNat?.bind st.get?, pid.toNat? with
@@ -588,7 +671,14 @@ def step (st : St) (op impl : String) : St × StepOut :=
       let ses' := closeTransport ses
       let (sesO, orc0) := oracleOn ses' none tbl [] impl
       -- a framing fault / EOF closes this session (C19: "closes that session only")
-      let orc := orc0 ++ (match parseObs? impl with
+      -- C18, end to end: the NodeServer stops a session (election loser) only in favour of a session of
+      -- the same peer name that PROVED the cookie - an unauthenticated connection can neither displace
+      -- nor veto another one, whatever name it claims
+      let kn := k.toNat?.getD 0
+      let rival := st.sessions.any (fun (k', s) => k' != kn && (s.oGood || s.oRelayed) &&
+        (s.st.name.map (·.1)) == (ses.st.name.map (·.1)) && s.st.name.isSome)
+      let orcK := if ws.head? == some "killed" && !ses.st.stopped && !rival then ["session-displaced-without-authenticated-rival"] else []
+      let orc := orc0 ++ orcK ++ (match parseObs? impl with
         | some o => if o.alive && !(ws.head? == some "killed") then ["wire-fault-did-not-close-session"] else []
         | none => [])
       (st.set (k.toNat?.getD 0) sesO, { model := showObs ses' [], oracle := orc, nontrivial := true })
